@@ -11,7 +11,7 @@
 //! compares with the value-semantics spec `eval`:
 //!   * the value returned or the final store differs = the compiled function
 //!     computes another value than value semantics prescribes (violation
-//!     `ctor-mir`, the script and the store are the failing input);
+//!     `value-semantics-mir`, the script and the store are the failing input);
 //!   * the instruction list is also compared, instruction for instruction, with
 //!     the one `lowerBody true` (the model theorem T8 is about) produces —
 //!     measured in the histogram `ctor_lowering_shape`.
@@ -343,7 +343,7 @@ pub fn run_case(pr: &Prog, script: &str, origin: (u64, u64), rt: &Runtime<NoCtx>
             crate::viol(
                 rep,
                 "the MIR the lowerer emits for a constructor does not compute what value semantics prescribes: a component does not hold the value its expression had when it was evaluated (left to right), or a write went elsewhere",
-                "ctor-mir",
+                "value-semantics-mir",
                 input(json!({"store_leaves": [base, step], "spec_value_and_store": spec, "mir_value_and_store": real, "mir": shown, "statement_kinds": pr.sig})),
             );
             break;
